@@ -25,6 +25,7 @@ type Job struct {
 	Timeout int               `json:"timeout_ms,omitempty"`
 	MaxPaths int              `json:"max_paths,omitempty"`
 	ForkAll bool              `json:"fork_all,omitempty"`
+	JobTimeoutS int           `json:"job_timeout_s,omitempty"`
 	ID      string            `json:"id,omitempty"`
 }
 
@@ -127,6 +128,20 @@ func runJob(prog *ssa.Program, job Job, base Config) (res HarnessResult) {
 	}
 	defer in.sol.Close()
 	in.params = job.Params
+	// wall-clock watchdog: a job that overruns is reported as aborted (inconclusive), never as pass
+	limit := time.Duration(base.JobTimeoutS) * time.Second
+	if job.JobTimeoutS > 0 {
+		limit = time.Duration(job.JobTimeoutS) * time.Second
+	}
+	if limit > 0 {
+		wd := time.AfterFunc(limit, func() {
+			in.expired.Store(true)
+			if c := in.sol.cmd; c != nil && c.Process != nil {
+				c.Process.Kill()
+			}
+		})
+		defer wd.Stop()
+	}
 	in.RunHarness(fn, &res)
 	return
 }
@@ -280,6 +295,7 @@ func cmdRun(args []string) {
 	params := fs.String("params", "", "k=v,k=v harness parameters")
 	forkAll := fs.Bool("fork-all", false, "fork at every symbolic branch")
 	prune := fs.Bool("prune", false, "solver feasibility check before every symbolic block")
+	jobTimeout := fs.Int("job-timeout", 900, "wall-clock limit per harness run in seconds (0 = none)")
 	fs.Parse(args)
 
 	var jobs []Job
@@ -321,7 +337,7 @@ func cmdRun(args []string) {
 	}
 	loadS := time.Since(t0).Seconds()
 	fmt.Fprintf(os.Stderr, "loaded %d packages in %.1fs\n", len(prog.AllPackages()), loadS)
-	base := Config{Unwind: *unwind, TimeoutMs: *timeout, Solver: *solver, MaxPaths: *maxPaths, MaxDepth: 400, Trace: *trace, ForkAll: *forkAll, MaxUnion: 64, Prune: *prune}
+	base := Config{Unwind: *unwind, TimeoutMs: *timeout, Solver: *solver, MaxPaths: *maxPaths, MaxDepth: 400, Trace: *trace, ForkAll: *forkAll, MaxUnion: 64, Prune: *prune, JobTimeoutS: *jobTimeout}
 	results := make([]HarnessResult, len(jobs))
 	var wg sync.WaitGroup
 	sem := make(chan struct{}, *par)
